@@ -57,7 +57,7 @@ def _py_includes():
 def _digest(spec, root):
     h = hashlib.sha256()
     h.update(json.dumps(spec, sort_keys=True).encode())
-    h.update(b"v4")
+    h.update(b"v5")
     paths = [os.path.join(root, spec["path"])]
     for d in spec["inc"]:
         dd = os.path.join(root, d)
@@ -98,6 +98,15 @@ def load_tu(name, root=None, _raw=False):
             pass
     np_inc, py_inc = _py_includes()
     filts = spec["filt"] if isinstance(spec["filt"], list) else [spec["filt"]]
+    if isinstance(spec["filt"], list):
+        # file-local helper functions (static [inline] ...) are part of the code under analysis too
+        import re
+        try:
+            src = open(os.path.join(root, spec["path"]), encoding="utf-8", errors="replace").read()
+            extra = re.findall(r"^[ \t]*static\s+(?:inline\s+)?[A-Za-z_][\w \t\*:<>,]*?\b([A-Za-z_]\w*)\s*\(", src, re.M)
+            filts = list(filts) + [x for x in dict.fromkeys(extra) if x not in filts and x not in ("if", "for", "while", "switch", "return")]
+        except OSError:
+            pass
     docs = []
     for filt in filts:
         cmd = ["clang++" if spec["cxx"] else "clang"]
